@@ -369,4 +369,8 @@ def run(ctx):
         "un-annotated `hg` parameters denote a Hypergraph; the degree functions are checked against all four containers (tables.POLYMORPHIC)",
         "correctness of the breadth-first search itself (that it computes reachability classes) is not decided",
     ]
+    with res.guard("general lint pack over the property's files"):
+        from ..lints import check_pack
+
+        check_pack(ctx, res, "C08")
     return res
